@@ -25,6 +25,13 @@ HARNESSES = [
     H('unique_ids', 'C11/unique_ids.c', sources=FIX, incdirs=INC, models=['quiet', 'realloc'],
       functions=['asn1f_check_unique_expr', 'asn1f_check_unique_expr_child'], inputs='3 component identifiers of 1..2 symbolic lower-case characters',
       bounds='3 components', native_extra=['libasn1parser/asn1parser.c', 'libasn1parser/asn1p_l.c', 'libasn1parser/asn1p_y.c']),
+    H('tags_shared_choice', 'C11/tags_shared.c', sources=[f for f in FIX if not f.endswith('asn1fix_retrieve.c')], incdirs=INC, models=['quiet', 'realloc'],
+      functions=['asn1f_check_constr_tags_distinct', '_asn1f_compare_tags (type references, shared CHOICE)', 'asn1f_fetch_tags_impl (AMT_TYPEREF)'],
+      inputs='parent kind; x: reference to Ch (tagged or not, OPTIONAL or not); y: reference to the same Ch or INTEGER; tags of x, y and of the alternatives of Ch symbolic',
+      bounds='one shared CHOICE definition with two alternatives', timeout=1200,
+      native_extra=['libasn1fix/asn1fix_retrieve.c', 'libasn1parser/asn1parser.c', 'libasn1parser/asn1p_l.c', 'libasn1parser/asn1p_y.c'],
+      native_ldflags=['-Wl,--wrap=asn1f_lookup_symbol', '-Wl,--wrap=asn1f_find_terminal_type'],
+      note='asn1f_lookup_symbol / asn1f_find_terminal_type are stubs resolving the one reference (interposed with ld --wrap in the native replay)'),
 ]
 ASSUMPTIONS = ['diagnostics go to a counting stub', 'the AST is built directly from asn1p_expr_t objects (parser not involved)']
 OUTSIDE = ['everything else in C11: exit status and absence of output files (whole-program I/O), parser acceptance, auto-tagging, duplicate identifiers, enumerations, dangling references, type references and nested untagged CHOICE']
